@@ -482,7 +482,8 @@ impl<'a> Run<'a> {
                     }
                 }
                 None => {
-                    let expired = entry.expiry.map(|e| now > e).unwrap_or(false);
+                    // at the very instant of expiry (now == expiry) a key may already be gone: that instant is not judged
+                    let expired = entry.expiry.map(|e| now >= e).unwrap_or(false);
                     if expired {
                         // swept between two steps without the event having been absorbed yet: learn it
                         self.model.remove(&key);
@@ -1101,7 +1102,7 @@ impl<'a> Run<'a> {
         let weights: [u64; 8] = match focus {
             "C03" => [22, 18, 12, 10, 4, 18, 6, 2],
             "C04" => [24, 8, 26, 8, 2, 10, 4, 18],
-            "C07" => [40, 8, 12, 6, 2, 20, 8, 2],
+            "C07" => [34, 14, 10, 6, 2, 20, 12, 2],
             "C08" => [18, 44, 8, 4, 2, 12, 4, 8],
             "C09" => [22, 20, 6, 14, 6, 28, 4, 0],
             "C10" => [24, 20, 10, 4, 2, 22, 16, 2],
